@@ -17,7 +17,37 @@ import sys
 sys.path.insert(0, os.path.dirname(os.path.abspath(__file__)))
 import schema_introspect as SI  # noqa: E402
 
-B, INDEX, IDS = SI.class_index()
+LAZY = os.environ.get("VERIF_LAZY") == "1"
+if LAZY:
+    # import-order dimension: nothing of the package is imported up front; a class's module is
+    # imported when a case first names it (the case carries module and class name)
+    src = os.environ.get("VERIF_SRC")
+    if src:
+        sys.path.insert(0, src)
+    import importlib
+    import logging as _logging
+
+    _logging.disable(_logging.CRITICAL)
+    from chuk_mcp.protocol import mcp_pydantic_base as B  # noqa: E402
+
+    class _LazyIndex(dict):
+        where = {}
+
+        def get(self, k, default=None):
+            if k not in self and k in self.where:
+                m, n = self.where[k]
+                self[k] = getattr(importlib.import_module(m), n)
+            return dict.get(self, k, default)
+
+        def __getitem__(self, k):
+            v = self.get(k)
+            if v is None:
+                raise KeyError(k)
+            return v
+
+    INDEX, IDS = _LazyIndex(), {}
+else:
+    B, INDEX, IDS = SI.class_index()
 BACKEND = "pydantic" if B.PYDANTIC_AVAILABLE else "fallback"
 
 
@@ -404,6 +434,20 @@ def _roundtrip(cls, emitted):
         return {"raised": type(ex).__name__}
 
 
+class _BadStr(Exception):
+    def __str__(self):
+        raise RuntimeError("str() of this exception raises")
+
+
+def _exc_class(name):
+    import builtins
+
+    if name == "BadStr":
+        return _BadStr
+    c = getattr(builtins, name or "ValueError", ValueError)
+    return c if isinstance(c, type) and issubclass(c, BaseException) else ValueError
+
+
 def flow_content_kind(case):
     from chuk_mcp.protocol.types import content as C
 
@@ -451,13 +495,16 @@ def flow_registry(case):
         if k == "result":
             return T.ToolResult.model_validate(copy.deepcopy(ret["value"]))
         if k == "raise":
-            raise ValueError(ret["value"])
+            raise _exc_class(ret.get("exc"))(ret["value"])
         return copy.deepcopy(ret["value"])  # dict / str / other
 
     tool = T.Tool.model_validate({"name": "t", "inputSchema": {"type": "object"}})
     reg.register_tool(tool, handler)
     name = "missing" if ret["kind"] == "unknown" else "t"
-    r1 = asyncio.run(reg.call_tool(name, {"q": 1}))
+    try:
+        r1 = asyncio.run(reg.call_tool(name, {"q": 1}))
+    except Exception as ex:  # noqa
+        return {"propagated": type(ex).__name__}
     r2 = asyncio.run(reg.call_tool(name, {"q": 1}))  # REUSE: the registry and handler a second time
     emitted = T.tool_result_to_dict(r1)
     return {
@@ -475,11 +522,14 @@ def flow_elicit_client(case):
     async def user(message, schema, title):
         seen.append([message, schema, title])
         if case.get("raise") is not None:
-            raise RuntimeError(case["raise"])
+            raise _exc_class(case.get("exc", "RuntimeError"))(case["raise"])
         return copy.deepcopy(case["data"])
 
     client = E.ElicitationClient(user)
-    resp = asyncio.run(client.handle_elicitation_request(copy.deepcopy(case["message"])))
+    try:
+        resp = asyncio.run(client.handle_elicitation_request(copy.deepcopy(case["message"])))
+    except Exception as ex:  # noqa
+        return {"propagated": type(ex).__name__, "user_saw": canon(seen)}
     out = {"response": canon(resp), "user_saw": canon(seen)}
     out["envelope"] = _exc(lambda: parse_message(copy.deepcopy(resp)).model_dump(by_alias=True, exclude_none=True))
     if isinstance(resp, dict) and "result" in resp:
@@ -610,11 +660,72 @@ def op_deep(case):
     return {"ok": True, "dump": canon(_plain(r)), "tree": SI.type_tree(r, B), "pytype": type(r).__name__}
 
 
+def op_setup(case):
+    """what a HOST application may legitimately do in the same process before using the library"""
+    import types
+    import typing
+
+    k = case["kind"]
+    if k == "host-aliases":
+        # a host module with typing aliases that happen to be named like model classes
+        m = types.ModuleType("verif_host_types")
+        for i, n in enumerate(case["names"]):
+            setattr(m, n, [typing.Union[int, str], typing.List[int], typing.Dict[str, int], typing.Optional[bool]][i % 4])
+        sys.modules["verif_host_types"] = m
+        return {"ok": True}
+    if k == "probe-classes":
+        # host models named like the library's, with the same attribute names, other types, other aliases
+        m = types.ModuleType("verif_host_models")
+        sys.modules["verif_host_models"] = m
+        made = 0
+        for c in case["classes"]:
+            ns = {"__annotations__": {}, "__module__": "verif_host_models"}
+            for j, a in enumerate(c["fields"]):
+                if not a.isidentifier() or a.startswith("_"):
+                    continue
+                ns["__annotations__"][a] = int
+                ns[a] = B.Field(default=j, alias=("h_" + a) if j % 2 else None)
+            cls = type(c["name"], (B.McpPydanticBase,), ns)
+            setattr(m, c["name"], cls)
+            o = cls.model_validate({("h_" + a if j % 2 else a): j + 1 for j, a in enumerate(ns["__annotations__"])})
+            o.model_dump(by_alias=True, exclude_none=True)
+            made += 1
+        return {"ok": True, "made": made}
+    if k == "env":
+        for kk, v in case["set"].items():
+            os.environ[kk] = v
+        return {"ok": True}
+    return {"ok": False, "exc": "no-such-setup"}
+
+
+def op_step(case):
+    """heterogeneous sequences: each step names its own operation"""
+    if LAZY and "where" in case:
+        INDEX.where[case["cls"]] = tuple(case["where"])
+    return OPS[case["op"]](case)
+
+
 def op_info(_case):
     return {"backend": BACKEND, "classes": len(INDEX)}
 
 
-OPS = {"validate": op_validate, "parse": op_parse, "helper": op_helper, "construct": op_construct, "flow": op_flow, "deep": op_deep, "info": op_info}
+OPS = {"validate": op_validate, "parse": op_parse, "helper": op_helper, "construct": op_construct, "flow": op_flow, "deep": op_deep, "setup": op_setup, "step": op_step, "info": op_info}
+
+
+def _debug_logging():
+    import logging
+
+    root = logging.getLogger()
+    prev_disable, prev_level, prev_handlers = root.manager.disable, root.level, list(root.handlers)
+    root.handlers[:] = [logging.NullHandler()]
+    root.setLevel(logging.DEBUG)
+    logging.disable(logging.NOTSET)
+
+    def restore():
+        logging.disable(prev_disable)
+        root.setLevel(prev_level)
+        root.handlers[:] = prev_handlers
+    return restore
 
 
 def main():
@@ -626,11 +737,18 @@ def main():
         req = json.loads(line)
         fn = OPS[req["op"]]
         res = []
-        for c in req["cases"]:
+        every = req.get("debug_every", 0)
+        for i, c in enumerate(req["cases"]):
+            # a share of the cases runs as under a host that configured logging at DEBUG (NullHandler):
+            # every logging.debug(...) / isEnabledFor(DEBUG) branch of the library is live there
+            restore = _debug_logging() if every and i % every == 0 else None
             try:
                 res.append(fn(c))
             except Exception as ex:  # noqa  (harness error, reported as such)
                 res.append({"ok": False, "exc": "worker:" + type(ex).__name__, "msg": str(ex)[:200]})
+            finally:
+                if restore:
+                    restore()
         out.write(json.dumps(res, ensure_ascii=True, allow_nan=True) + "\n")
         out.flush()
 
